@@ -31,7 +31,8 @@ func RunC08(tier string) int {
 	}
 	defer st.Cleanup()
 	n := tierN(tier, 28, 300)
-	kinds := []string{"mirror", "mirror", "local-first", "put-fault-then-retry", "b-get-5xx", "b-get-404", "b-get-truncated", "a-put-dropped", "b-head-5xx", "a-put-5xx-target"}
+	kinds := []string{"mirror", "mirror", "local-first", "put-fault-then-retry", "b-get-5xx", "b-get-404", "b-get-truncated", "a-put-dropped", "b-head-5xx", "a-put-5xx-target",
+		"a-head-403", "a-head-5xx", "blobs-expired-then-B-then-C", "blobs-expired-then-B-then-C"}
 	e1.Parallel(n, func(i int) {
 		r := rng.Derive(uint64(run.Seed), "C08", fmt.Sprint(i))
 		kind := kinds[i%len(kinds)]
@@ -78,6 +79,7 @@ func RunC08(tier string) int {
 		viol := func(sig, what string, obs *e1.Obs) {
 			keep = !run.Violation(sig, what, replay(obs)) || keep
 		}
+		writerRoot := rootA // the machine whose build wrote the results being audited
 		auditRemote := func(when string) bool {
 			if kind == "a-put-dropped" {
 				return true // the store acknowledged a PUT and dropped it: nothing grog can know
@@ -96,7 +98,7 @@ func RunC08(tier string) int {
 					detail = rep.Dangling[0]
 					// root cause: is the missing blob sitting in the writer's local cache?
 					saved := env.M.Root
-					env.M.Root = rootA
+					env.M.Root = writerRoot
 					localA, _ := audit.LoadDir(env.CacheDir())
 					env.M.Root = saved
 					onlyLocal, nowhere := 0, 0
@@ -159,6 +161,12 @@ func RunC08(tier string) int {
 			fs3.Faults = []*S3Fault{{Verb: "PUT", KeyPart: "/cas/", Kind: "500", Skip: r.Intn(3), Count: 2}}
 		case "a-put-5xx-target":
 			fs3.Faults = []*S3Fault{{Verb: "PUT", KeyPart: "/target/", Kind: "500", Skip: r.Intn(2), Count: 2}}
+		case "a-head-403":
+			// the existence probe is refused (credentials without the list permission) while
+			// reads and writes work: "cannot tell" must never be taken for "already stored"
+			fs3.Faults = []*S3Fault{{Verb: "HEAD", KeyPart: "/cas/", Kind: "403"}}
+		case "a-head-5xx":
+			fs3.Faults = []*S3Fault{{Verb: "HEAD", KeyPart: "/cas/", Kind: "500", Skip: r.Intn(3)}}
 		}
 		faultyA := len(fs3.Faults) > 0
 		jk := strict
@@ -217,6 +225,11 @@ func RunC08(tier string) int {
 		env.M.Root = rootB
 		env.Cfg = remoteCfg
 		fs3.Reset()
+		if kind == "blobs-expired-then-B-then-C" {
+			gone := fs3.Expire(r.Range(1, 3), r.Intn)
+			env.Logf("remote lifecycle rule expired %d blob(s): %v", len(gone), gone)
+			run.Count("remote_blobs_expired", len(gone))
+		}
 		faultyB := true
 		switch kind {
 		case "b-get-5xx":
@@ -227,6 +240,9 @@ func RunC08(tier string) int {
 			fs3.Faults = []*S3Fault{{Verb: "GET", KeyPart: "/cas/", Kind: "truncate", Skip: r.Intn(3), Count: r.Range(1, 2)}}
 		case "b-head-5xx":
 			fs3.Faults = []*S3Fault{{Verb: "HEAD", KeyPart: "/", Kind: "500", Skip: r.Intn(3), Count: 2}}
+		case "blobs-expired-then-B-then-C":
+			// B may have to re-execute what lost a blob (irretrievable outputs): lenient on the
+			// executed set, strict on bytes and exit status
 		default:
 			faultyB = kind == "a-put-dropped" || faultyA
 		}
@@ -293,6 +309,34 @@ func RunC08(tier string) int {
 			if _, _, ok := step("B-after-faults", e1.BuildOpts{}, safety, true); !ok {
 				return
 			}
+		}
+		if kind == "blobs-expired-then-B-then-C" {
+			// B's build succeeded and re-wrote the results of what it had to re-execute: the
+			// store must be whole again (every result it holds references stored blobs) ...
+			if obsB.Res.Exit != 0 {
+				viol("build-failed-on-expired-remote-blob", "machine B's build failed although a missing remote object must degrade to a cache miss: "+tail(obsB.Res.Stdout+obsB.Res.Stderr, 400), obsB)
+				return
+			}
+			writerRoot = rootB
+			if !auditRemote("after machine B rebuilt what had lost a blob in the remote store") {
+				return
+			}
+			// ... so that a third machine restores everything without executing
+			rootC := filepath.Join(env.Dir, "rootC")
+			_ = os.MkdirAll(rootC, 0755)
+			env.WipeOutputs()
+			env.M.Root = rootC
+			for k := range env.Memo {
+				env.Memo[k] = "ok"
+			}
+			for k := range env.Unsure {
+				delete(env.Unsure, k)
+			}
+			fs3.Reset()
+			if _, _, ok := step("C-build", e1.BuildOpts{}, strict, false); !ok {
+				return
+			}
+			run.Count("third_machine_builds_after_remote_healing", 1)
 		}
 		if !auditRemoteQuiet(fs3, bucketPrefix) && kind != "a-put-dropped" {
 			auditRemote("at the end of the scenario")
